@@ -105,7 +105,7 @@ def gen_seqeq(rng):
     for r in range(rng.choice([1, 1, 2])):
         pool = rng.sample(range(len(EQ_POOL)), rng.randint(2, 5))
         for _ in range(rng.randint(2, 7)):
-            ops.append([r, rng.choice(['set', 'set', 'meta']), rng.randint(1, 2), rng.choice(pool)])
+            ops.append([r, rng.choice(['set', 'set', 'meta', 'item']), rng.randint(1, 2), rng.choice(pool)])
         ops.append([r, 'save'])
     return {'kind': 'seqeq', 'model': False, 'ops': ops, 'failing': rng.random() < 0.25}
 
@@ -130,7 +130,7 @@ def run_seqeq(case):
         out = []
         for rid in inner._recordings:
             rec = inner.get_recording(rid)
-            out.append({'data': sorted([k, typed(rec.get_data(k))] for k in rec.get_all_keys()),
+            out.append({'data': sorted(([repr(k), typed(rec.get_data(k))] for k in rec.get_all_keys()), key=repr),
                         'meta': sorted([k, typed(v)] for k, v in rec.get_metadata().items())})
         return out
 
@@ -140,7 +140,10 @@ def run_seqeq(case):
             r = op[0]
             if r not in recs:
                 recs[r] = cassette.create_new_recording('Cat')
-            if op[1] == 'set':
+            if op[1] == 'item':
+                # item assignment (what the recorder itself uses), under keys that need not be text
+                recs[r][[5, (1, 2), b'kb', 'plain'][(op[2] + op[3]) % 4]] = EQ_POOL[op[3]]
+            elif op[1] == 'set':
                 recs[r].set_data('k%d' % op[2], EQ_POOL[op[3]])
             elif op[1] == 'meta':
                 recs[r].add_metadata({'m%d' % op[2]: EQ_POOL[op[3]]})
